@@ -161,7 +161,12 @@ func (g *genCtx) schema(depth int, inplaceMin int) Doc {
 		case 7:
 			add("exclusiveMaximum", DNum(pick(r, numPool)))
 		case 8:
-			add("multipleOf", DNum(pick(r, multPool)))
+			if r.chance(1, 12) {
+				// a zero divisor is not refused by Unmarshal or Resolve: every number fails it, nothing panics
+				add("multipleOf", DNum(pick(r, []string{"0", "-0", "0.0"})))
+			} else {
+				add("multipleOf", DNum(pick(r, multPool)))
+			}
 		case 9:
 			add("minLength", DNum(pick(r, countPool)))
 		case 10:
